@@ -18,7 +18,9 @@ RULE = ("(a) outcome part: all rooted DAG shapes n<=3 x listing orders over expe
         "executed Python lines of the last command is copied (= what survives kill -9 there) and checked after ordinary SQLite "
         "recovery: every committed row has its directory, the child's DONE marker and args.json/options.json decoding to the declared "
         "values; each surviving state is also the start state of one further command {run, gc, restore} whose result must satisfy "
-        "the same invariant. non-trivial = case with at least one experiment / crash state; distinct = distinct (case, order) or "
+        "the same invariant; (c) abort part: ConductorAbort (what a SIGINT/SIGTERM handler raises) injected at every executed line, every "
+        "eval-breaker instruction and after every pure C call of `cond run` for 1-2 experiments (3 tasks --jobs 2 in the thorough tier): "
+        "every committed row belongs to a process that exited 0 and still has its directory and finished output. non-trivial = case with at least one experiment / crash state; distinct = distinct (case, order) or "
         "(history, crash state)")
 ASSUMPTIONS = [
     "crash = process death at Python-line granularity (Conductor, shutil, json frames); inside one SQLite commit / one C call is trusted",
@@ -205,8 +207,71 @@ def crash_items(tier):
     return out
 
 
+ABORT_CASES = [
+    {"g": [[]], "kinds": ["exp"], "pars": [False], "jobs": 1},
+    {"g": [[1], []], "kinds": ["exp", "exp"], "pars": [False, False], "jobs": 1},
+    {"g": [[1, 2], [], []], "kinds": ["group", "exp", "exp"], "pars": [False, True, True], "jobs": 2},
+]
+ABORT_GRAN = {"line": 8, "evalbreaker": 2, "aftercall": 1}
+
+
+def abort_items(tier):
+    """(c) SIGINT/SIGTERM instead of SIGKILL: ConductorAbort raised at every executed line, at every instruction where CPython runs
+    signal handlers, and right after every C call (e.g. after sqlite's commit has returned) of a `cond run`; Conductor's own
+    cleanup code then runs.  Afterwards every committed row must still have its directory with the finished output."""
+    out = []
+    for ci, case in enumerate(ABORT_CASES if tier == "thorough" else ABORT_CASES[:2]):
+        for gran, n in ABORT_GRAN.items():
+            for ch in range(n):
+                out.append({"kind": "abort", "case": case, "case_index": ci, "granularity": gran, "chunk": ch, "nchunks": n})
+    return out
+
+
+def run_abort(item, res, viol, only_target=None):
+    from conductor.errors import ConductorAbort
+    scn = rungrid.make_scenario(item["case"])
+    gran = item["granularity"]
+    counts = []
+    for _ in range(5):
+        counter = inject.AbortInjector(None, granularity=gran)
+        explore.execute(scn, (), tracer=counter)
+        counts.append(counter.count)
+        if len(counts) >= 2 and counts[-1] == counts[-2] and counts[-1] > 0:
+            break
+    N = counts[-1]
+    if only_target is None and (len(counts) < 2 or counts[-1] != counts[-2] or N == 0):
+        raise RuntimeError("injection-point count not deterministic: %r" % (counts,))
+    lo, hi = item["chunk"] * N // item["nchunks"], (item["chunk"] + 1) * N // item["nchunks"]
+    if item["chunk"] == 0:
+        res["counters"]["abort_points:%d:%s" % (item["case_index"], gran)] = N
+    for k in ([None] if only_target is not None else range(lo, hi)):
+        inj = inject.AbortInjector(k, exc_factory=ConductorAbort, target=only_target, granularity=gran)
+        obs = explore.execute(scn, (), tracer=inj, allow_unconsumed=True, timeout=3)
+        res["evals"] += 1
+        if inj.fired_at is None:
+            if only_target is not None:
+                return
+            raise RuntimeError("injection point %d of %d never reached" % (k, N))
+        if inj.skipped_finalizer:
+            continue
+        where = "%s:%s:%d" % (inj.fired_at[1], inj.fired_at[0], inj.fired_at[2]) + (" [%s]" % (inj.fired_at[3],) if len(inj.fired_at) > 3 else "")
+        art = {"kind": "abort", "case": item["case"], "case_index": item["case_index"], "granularity": gran, "target": list(inj.fired_key) + [inj.nth]}
+        ok0 = {p.key for p in obs.vk.procs.values() if p.state != "run" and p.status == 0}
+        res["sigs"].add(explore.sig([item["case_index"], gran, inj.fired_at, len(obs.rows or [])]))
+        for row in obs.rows or []:
+            path, name = row[0][2:].split(":")
+            d = os.path.join(obs.root, "cond-out", path, "%s.task.%d" % (name, row[1]))
+            if row[0] not in ok0:
+                viol("abort:unsuccessful-recorded", "abort at %s: version recorded for %s whose process had not exited 0" % (where, row[0]), art)
+            elif not os.path.isdir(d):
+                viol("abort:row-without-directory", "abort at %s: %s version %d is recorded but its directory is gone" % (where, row[0], row[1]), art)
+            elif not os.path.exists(os.path.join(d, "DONE")):
+                viol("abort:row-without-output", "abort at %s: %s version %d is recorded but its finished output is missing" % (where, row[0], row[1]), art)
+    res["sample"] = {"argv": scn["argv"], "granularity": gran, "injection_points": N, "chunk": [lo, hi]}
+
+
 def items(tier):
-    return outcome_items(tier) + crash_items(tier)
+    return outcome_items(tier) + crash_items(tier) + abort_items(tier)
 
 
 class _quiet:
@@ -231,6 +296,11 @@ def run_item(item, tier):
     def viol(key, what, art):
         found.setdefault(key, (what, art))
 
+    if item["kind"] == "abort":
+        run_abort(item, res, viol, only_target=item.get("only_target"))
+        for key, (what, art) in found.items():
+            res["violations"].append({"key": key, "what": what, "artefact": art})
+        return res
     root = driver.fresh_project({"COND": COND}, name="c06")
     t = 1_700_000_000
     hist_ = item["history"]
@@ -278,5 +348,9 @@ def run_item(item, tier):
 def replay(artefact):
     if "scenario" in artefact:
         return rungrid.replay_case(artefact, [mon_rows])
+    if artefact.get("kind") == "abort":
+        r = run_item({"kind": "abort", "case": artefact["case"], "case_index": artefact["case_index"], "granularity": artefact["granularity"],
+                      "chunk": 0, "nchunks": 1, "only_target": artefact["target"]}, "quick")
+        return [(v["key"], v["what"]) for v in r["violations"]]
     r = run_item({"kind": "crash", "history": artefact["history"]}, "quick")
     return [(v["key"], v["what"]) for v in r["violations"]]
